@@ -274,6 +274,11 @@ func init() {
 		g.quiesce()
 		return mkBool(ok)
 	})
+	V("FireTimerNow", func(g *G, a []Value, pos token.Pos) Value {
+		// fires one pending timer without waiting for quiescence before or after: usable from any goroutine,
+		// so that a timer callback races with whatever else is going on
+		return mkBool(g.vm.fireSomeTimer())
+	})
 	V("FireTimerN", func(g *G, a []Value, pos token.Pos) Value {
 		g.quiesce()
 		p := g.vm.pendingTimers()
@@ -738,6 +743,8 @@ func init() {
 	I["strings.IndexByte"] = func(g *G, a []Value, pos token.Pos) Value {
 		return g.indexByte(strBytes(a[0]), a[1].(IntV))
 	}
+	// time.quote only decorates error messages (ranges over the runes of the offending text)
+	I["time.quote"] = func(g *G, a []Value, pos token.Pos) Value { return "\"<text>\"" }
 	// strings.Builder guards against copies and builds its result with package unsafe
 	I["(*strings.Builder).copyCheck"] = func(g *G, a []Value, pos token.Pos) Value { return nil }
 	I["(*strings.Builder).String"] = func(g *G, a []Value, pos token.Pos) Value {
